@@ -532,13 +532,14 @@ class Input(object):
                 return False
             key = self.keys[key_n]
             sig = self.signatures[sig_n]
-            if verify(transaction_hash, sig, key):
+            # Every signature names the digest it signs with its hash type byte: the digest given is the one for self.hash_type
+            if sig.hash_type == self.hash_type and verify(transaction_hash, sig, key):
                 sigs_verified += 1
                 sig_n += 1
             elif sig_n > 0:
                 # try previous signature
                 prev_sig = deepcopy(self.signatures[sig_n - 1])
-                if verify(transaction_hash, prev_sig, key):
+                if prev_sig.hash_type == self.hash_type and verify(transaction_hash, prev_sig, key):
                     sigs_verified += 1
             key_n += 1
         self.valid = True
